@@ -44,17 +44,25 @@ class Resolver:
         return out
 
     # ---- structures
-    def structs(self, fn, e, depth=4):
+    def structs(self, fn, e, depth=4, _vis=None):
         """aggregates (owner_fn, agg_expr) that expression e may denote"""
         if depth < 0:
             return None
+        _vis = _vis or frozenset()
+        if e[0] == "local":
+            if (fn.name, e[1]) in _vis:
+                return None
+            _vis = _vis | {(fn.name, e[1])}
+        return self._structs(fn, e, depth, _vis)
+
+    def _structs(self, fn, e, depth, _vis):
         k = e[0]
         if k == "agg":
             return [(fn, e)]
         if k in ("ref", "deref", "cast"):
-            return self.structs(fn, e[3] if k == "cast" else e[1], depth)
+            return self.structs(fn, e[3] if k == "cast" else e[1], depth, _vis)
         if k == "downcast":
-            ss = self.structs(fn, e[1], depth)
+            ss = self.structs(fn, e[1], depth, _vis)
             if ss is None:
                 return None
             return [(o, a) for o, a in ss if a[1][0] == "adt" and a[1][2] == e[2]]
@@ -69,7 +77,7 @@ class Resolver:
             for caller, t in sites:
                 if e[1] - 1 >= len(t["args"]):
                     return None
-                sub = self.structs(caller, caller.expr(t["args"][e[1] - 1], 10), depth - 1)
+                sub = self.structs(caller, caller.expr(t["args"][e[1] - 1], 10), depth - 1, _vis)
                 if sub is None:
                     return None
                 out += sub
@@ -81,7 +89,7 @@ class Resolver:
                 return None
             for kind, b, i, node in ds:
                 if kind == "stmt":
-                    sub = self.structs(fn, fn.rvalue_expr(node["r"], 10), depth)
+                    sub = self.structs(fn, fn.rvalue_expr(node["r"], 10), depth, _vis)
                 elif kind == "call":
                     return None
                 else:
@@ -91,7 +99,7 @@ class Resolver:
                 out += sub
             return out
         if k == "field":
-            ss = self.structs(fn, e[1], depth)
+            ss = self.structs(fn, e[1], depth, _vis)
             if ss is None:
                 return None
             out = []
@@ -99,7 +107,7 @@ class Resolver:
                 op = _operand_by_field(self.prog, a, e[2])
                 if op is None:
                     return None
-                sub = self.structs(o, op, depth)
+                sub = self.structs(o, op, depth, _vis)
                 if sub is None:
                     return None
                 out += sub
@@ -107,16 +115,24 @@ class Resolver:
         return None
 
     # ---- values
-    def values(self, fn, e, depth=4):
+    def values(self, fn, e, depth=4, _vis=None):
         if depth < 0:
             return None
+        _vis = _vis or frozenset()
+        if e[0] == "local":
+            if (fn.name, e[1]) in _vis:
+                return None      # loop-carried value: not a finite constant set
+            _vis = _vis | {(fn.name, e[1])}
+        return self._values(fn, e, depth, _vis)
+
+    def _values(self, fn, e, depth, _vis):
         k = e[0]
         if k == "const" and isinstance(e[1], int):
             return {e[1]}
         if k in ("ref", "deref"):
-            return self.values(fn, e[1], depth)
+            return self.values(fn, e[1], depth, _vis)
         if k == "cast":
-            v = self.values(fn, e[3], depth)
+            v = self.values(fn, e[3], depth, _vis)
             if v is None:
                 return None
             return {formula.wrap(x, e[2]) for x in v}
@@ -130,7 +146,7 @@ class Resolver:
             for caller, t in sites:
                 if e[1] - 1 >= len(t["args"]):
                     return None
-                v = self.values(caller, caller.expr(t["args"][e[1] - 1], 10), depth - 1)
+                v = self.values(caller, caller.expr(t["args"][e[1] - 1], 10), depth - 1, _vis)
                 if v is None:
                     return None
                 out |= v
@@ -145,13 +161,13 @@ class Resolver:
             for kind, b, i, node in ds:
                 if kind != "stmt":
                     return None
-                v = self.values(fn, fn.rvalue_expr(node["r"], 10), depth)
+                v = self.values(fn, fn.rvalue_expr(node["r"], 10), depth, _vis)
                 if v is None:
                     return None
                 out |= v
             return out
         if k == "field":
-            ss = self.structs(fn, e[1], depth)
+            ss = self.structs(fn, e[1], depth, _vis)
             if ss is None:
                 return None
             out = set()
@@ -159,14 +175,14 @@ class Resolver:
                 op = _operand_by_field(self.prog, a, e[2])
                 if op is None:
                     return None
-                v = self.values(o, op, depth)
+                v = self.values(o, op, depth, _vis)
                 if v is None:
                     return None
                 out |= v
             return out
         if k in ("bin", "checked"):
-            a = self.values(fn, e[2], depth)
-            b = self.values(fn, e[3], depth)
+            a = self.values(fn, e[2], depth, _vis)
+            b = self.values(fn, e[3], depth, _vis)
             if a is None or b is None or len(a) * len(b) > CAP:
                 return None
             out = set()
@@ -178,7 +194,7 @@ class Resolver:
                         return None
             return out
         if k == "discr":
-            ss = self.structs(fn, e[1], depth)
+            ss = self.structs(fn, e[1], depth, _vis)
             if ss is None:
                 return None
             out = set()
